@@ -48,11 +48,7 @@ pub fn check_fold(rec: &J) -> Verdict {
                 return Verdict::viol("numeric folder reports a different value than the model".into(), obs);
             }
         }
-        (Err(w), false) => {
-            if mn["why"].as_str() != Some(w.as_str()) {
-                return Verdict::viol(format!("numeric folder declines with {} (model {})", w, mn["why"]), obs);
-            }
-        }
+        (Err(_), false) => {} // why it declines is not part of C17
         (Ok(_), false) => return Verdict::viol("numeric folder reports a value where the model reports none".into(), obs),
         (Err(w), true) => return Verdict::viol(format!("numeric folder declines ({}) where the model reports a value", w), obs),
     }
@@ -63,11 +59,7 @@ pub fn check_fold(rec: &J) -> Verdict {
                 return Verdict::viol("string folder reports a different value than the model".into(), obs);
             }
         }
-        (Err(w), false) => {
-            if ms["why"].as_str() != Some(w.as_str()) {
-                return Verdict::viol(format!("string folder declines with {} (model {})", w, ms["why"]), obs);
-            }
-        }
+        (Err(_), false) => {}
         _ => return Verdict::viol("string folder and model disagree on whether a value is reported".into(), obs),
     }
     // differential on the implementation: whatever the folder reports, the interpreter computes
@@ -199,18 +191,26 @@ pub fn check_lint(rec: &J) -> Verdict {
             if e["value"] != o["value"] {
                 return fail(format!("diagnostic {}: value {} (model {})", i + 1, o["value"], e["value"]));
             }
-            if e["sugg"] != o["sugg"] {
-                return fail(format!("diagnostic {}: suggestions {} (model {})", i + 1, o["sugg"], e["sugg"]));
-            }
         }
         if o["pass"] == "boring" {
-            // whatever is suggested must work (also where the model does not fix the digits)
+            // Suggestions are judged by what they do, not by their wording: the words of every suggestion must spell the
+            // reported value, and for a plain variable the suggested line must assign it.  (The model's own suggestion text
+            // is kept in the record as documentation of the template.)
             let target = o["target"].as_str().unwrap();
-            if !target.starts_with('<') {
-                for sgg in o["sugg"].as_array().unwrap() {
-                    if let Err(m) = suggestion_works(sgg.as_str().unwrap(), target, o["value"].as_str().unwrap()) {
-                        return fail(format!("diagnostic {}: {}", i + 1, m));
+            for sgg in o["sugg"].as_array().unwrap() {
+                let payload = sgg.as_str().unwrap();
+                let (line_text, var) = if target.starts_with('<') {
+                    // replace the unrenderable target by a variable so that the words can be read
+                    match payload.find(" is ").map(|k| (k, " is ")).or_else(|| payload.find(" like ").map(|k| (k, " like "))).or_else(|| payload.find(" says ").map(|k| (k, " says "))) {
+                        Some((k, " like ")) => (format!("Rock zzz like {}", &payload[k + 6..]), "zzz".to_string()),
+                        Some((k, sep)) => (format!("zzz{}{}", sep, &payload[k + sep.len()..]), "zzz".to_string()),
+                        None => (payload.to_string(), "zzz".to_string()),
                     }
+                } else {
+                    (payload.to_string(), target.to_string())
+                };
+                if let Err(m) = suggestion_works(&line_text, &var, o["value"].as_str().unwrap()) {
+                    return fail(format!("diagnostic {}: {}", i + 1, m));
                 }
             }
         }
